@@ -79,6 +79,16 @@ def _run_execution(cfg, prefix, record=False):
                 if [raw for layer in layers for raw in layer] != list(JOBS[jname]):
                     raise AssertionError("harness: the layers of the unedited job are not the job in order; pick a job with rising heights")
                 gc.prepend_to_layer(list(cmds), k)
+            if cfg.get("rewrite"):
+                # one layer of the job is replaced by other commands (fewer or more than it had) before streaming
+                cmds, which = cfg["rewrite"]
+                layers = [[ln.raw for ln in layer] for layer in gc.all_layers]
+                populated = [i for i, layer in enumerate(layers) if layer]
+                k = populated[0] if which == "first" else populated[len(populated) // 2]
+                if [raw for layer in layers for raw in layer] != list(JOBS[jname]):
+                    raise AssertionError("harness: the layers of the unedited job are not the job in order; pick a job with rising heights")
+                jm["expected_raw"] = [raw for layer in layers[:k] for raw in layer] + list(cmds) + [raw for layer in layers[k + 1:] for raw in layer]
+                gc.rewrite_layer(list(cmds), k)
             jm["started"] = p.startprint(gc)
             if cfg.get("poll"):
                 # the application polls the temperature with a priority command while the job is running
@@ -331,6 +341,10 @@ def plan(tier):
         for dialect, which in (("A", "last"), ("B", "middle"), ("A", "middle"), ("B", "last")):
             for corrupt in ((), (3,)):
                 base = {"job": "J12", "dialect": dialect, "greeting": None, "eager": False, "corrupt": corrupt, "prepend": (["M117 layer", "M106 S255"], which)}
+                items.append(({**base, "line_points": True}, 0, None))
+        for dialect, which, cmds in (("A", "first", ["G1 Z0.25"]), ("B", "middle", ["G1 Z0.4", "G1 X2 E2", "G1 X2.5 E2.5", "M106 S128"]), ("A", "middle", ["G1 Z0.45"])):
+            for corrupt in ((), (2,)):
+                base = {"job": "J12", "dialect": dialect, "greeting": None, "eager": False, "corrupt": corrupt, "rewrite": (cmds, which)}
                 items.append(({**base, "line_points": True}, 0, None))
         for corrupt in ((), (0,), (1,), (2,), (1, 2)):
             base = {"job": "J3", "dialect": "D", "greeting": None, "eager": False, "corrupt": corrupt}
